@@ -29,6 +29,18 @@ class PrintInterp(PlaceInterp):
     def text(self, since=0):
         return ''.join(str(a[0]) for n, a in self.calls[since:] if n == 'write_str')
 
+    def display_of(self, v):
+        v = deref(v)
+        t = self.type_of(v)
+        d = self.ev.facts.method('core::fmt::Display', t, 'fmt') if t else None
+        if not d or not self.ev.facts.has_body(d):
+            raise Unanalysable(f'Display of a `{t}` value: no workspace impl')
+        n0 = len(self.calls)
+        self.apply_fn(self.ev.facts.body(d), [v, ('formatter',)])
+        out = self.text(n0)
+        del self.calls[n0:]
+        return out
+
     def _impl_for_prim(self, v, name):
         for t in prim_type(v):
             c = [d for d in self.ev.facts.bodies if (d.startswith(f'<{t} as ') and d.endswith('>::' + name)) or d.endswith(f' for {t}>::{name}')]
@@ -36,8 +48,22 @@ class PrintInterp(PlaceInterp):
                 return self.ev.facts.body(c[0])
         return None
 
+    def val(self, e, env):
+        if e.get('k') == 'call':
+            p = (peel(e.get('f', {})).get('path') or '').split('::<')[0]
+            if p == 'alloc::fmt::format' and len(e.get('args', [])) == 1:
+                return self.format_text({'args': e['args'], 'l': e.get('l'), 'k': 'mcall', 'name': 'write_fmt'}, env)       # `format!(..)`: the text
+            if p == 'core::hint::must_use' and len(e.get('args', [])) == 1:
+                return self.val(e['args'][0], env)
+        return super().val(e, env)
+
     def _mcall(self, e, env):
         name = e.get('name') or ''
+        if name == 'trim_end_matches' and len(e.get('args', [])) == 1:
+            recv = deref(self.val(e['recv'], env))
+            pat = deref(self.val(e['args'][0], env))
+            if isinstance(recv, str) and isinstance(pat, (str, int)):
+                return recv.rstrip(pat if isinstance(pat, str) else chr(pat))
         if name in ('to_toml_key', 'to_toml_value') and not e.get('args'):
             recv = deref(self.val(e['recv'], env))
             wname = 'write_toml_key' if name == 'to_toml_key' else 'write_toml_value'
